@@ -19,10 +19,11 @@ CONFIGS = {
     "users": (None, {"cfgu": (None, None), "cfgp": ("userpw", None), "cfgm": (None, "*!*@127.0.0.1"),
                      "cfgx": (None, "*!*@10.*"), "cfgpm": ("userpw", "*!~cfgpm@127.*"), "cfgq": ("otherpw", None),
                      # names are compared as written: capitals in a configured name are nothing special
-                     "CfgCap": ("cappw", None), "CfgMask": (None, "*!*@10.*")}),
+                     "CfgCap": ("cappw", None), "CfgMask": (None, "*!*@10.*"),
+                     "cfgh": (None, "*!*@127.0.0.2")}),
     "srvpw+users": ("srvpw", {"cfgu": (None, None), "cfgp": ("userpw", None), "cfgx": ("userpw", "*!*@10.*"),
                               "cfgm": (None, "gate*!*@*"), "cfgq": ("otherpw", None), "CfgCap": ("cappw", None),
-                              "CfgMask": (None, "*!*@10.*")}),
+                              "CfgMask": (None, "*!*@10.*"), "cfgh": ("userpw", "*!*@127.0.0.2")}),
     # "exactly that password": a long one, told apart from others by its last characters only
     "longpw": ("s" * 64 + "-and-a-tail-that-counts", {}),
 }
@@ -41,8 +42,8 @@ def server_cfg(binary, name):
 class Conn:
     """one connection with the 421-marker barrier"""
 
-    def __init__(self, srv, name):
-        self.c = wire.Client(srv.port, name=name, timeout=8.0)
+    def __init__(self, srv, name, bind=None):
+        self.c = wire.Client(srv.port, name=name, timeout=8.0, bind=bind)
         self.c.keep_transcript = False
         self.n = 0
         self.closed = None
@@ -84,6 +85,7 @@ class Auto:
         self.registered = False
         self.closed = False
         self.mask_refused = False
+        self.host = "127.0.0.1"
 
     def step(self, line):
         """-> expectation dict: kind in {gated, welcome, refuse464, no-completion, 433, 462, cap, 421, quit}"""
@@ -133,7 +135,7 @@ class Auto:
         if self.nick in self.taken:
             # the claimed nickname was registered by somebody else meanwhile: refused, still unregistered
             cu = self.users.get(self.user)
-            source = "%s!~%s@127.0.0.1" % (self.nick, self.user)
+            source = "%s!~%s@%s" % (self.nick, self.user, self.host)
             if cu is not None and cu[1] is not None and not glob.match(cu[1], source):
                 return {"kind": "no-completion", "why": "mask"}
             need = cu[0] if (cu is not None and cu[0] is not None) else self.spw
@@ -142,7 +144,7 @@ class Auto:
                 return {"kind": "refuse464"}
             return {"kind": "433", "why": "late"}
         cu = self.users.get(self.user)
-        source = "%s!~%s@127.0.0.1" % (self.nick, self.user)
+        source = "%s!~%s@%s" % (self.nick, self.user, self.host)
         if cu is not None and cu[1] is not None and not glob.match(cu[1], source):
             self.mask_refused = True
             return {"kind": "no-completion", "why": "mask"}
@@ -222,8 +224,12 @@ class GateRun:
     def one(self, srv, obs, tk, seq, base):
         self.cases += 1
         self.current = list(seq)
-        c = Conn(srv, "g")
         au = Auto(self.cfgname, {"taken", "obs"})
+        if seq and seq[0].startswith("@from:"):
+            # the connection comes from another address: masks are compared with the peer's address
+            au.host = seq[0][6:]
+            seq = seq[1:]
+        c = Conn(srv, "g", bind=au.host if au.host != "127.0.0.1" else None)
         trace = []
         rival = None
         cur_base = base
@@ -402,6 +408,13 @@ def core_sequences(cfgname):
                 seqs.append(head + ["NICK gate1", "USER %s 0 * :C" % name])
                 seqs.append(head + ["USER %s 0 * :C" % name, "NICK gate1", "JOIN #o"])
             seqs.append(head + ["CAP LS 302", "NICK gate1", "USER CfgCap 0 * :C", "CAP END"])
+    # masks are compared with the address the client connects from (another loopback address is another host)
+    if users:
+        for frm in ("127.0.0.1", "127.0.0.2", "127.0.0.3"):
+            for name in ("cfgh", "cfgm", "cfgx", "cfgpm", "plain"):
+                for pw in (None, "userpw", spw):
+                    seqs.append((["@from:" + frm] if frm != "127.0.0.1" else []) + (["PASS " + pw] if pw else [])
+                                + ["NICK gate1", "USER %s 0 * :C" % name, "JOIN #o"])
     # the connection gives up with QUIT (one of the six commands it may use): whoever owns the nickname it once claimed
     # is not concerned
     for pre in ([], ["PASS wrong"], ["CAP LS 302"]):
